@@ -144,7 +144,13 @@ func TestVerifC09(t *testing.T) {
 		mb := []int{1, 2, 3, 5, 8}[r.Intn(5)]
 		nev := 5 + r.Intn(maxev)
 		kind := i % 3 // 0: from the empty collection, 1: from a generated manifest, 2: load and save unchanged
+		if cfsDeadCases >= 3 {
+			break
+		}
 		c := c09Run(t, r, mb, nev, kind)
+		if c.dead {
+			cfsDeadCases++
+		}
 		tags := append(c.tags(), fmt.Sprintf("mb=%d", mb), fmt.Sprintf("kind=%d", kind))
 		nontrivial := false
 		for _, tg := range tags {
